@@ -83,8 +83,9 @@ macro_rules! dim_impl {
     ($m:ident, $p:ident, $d:expr, $pn:expr, $iso:expr) => {
         pub mod $m {
             use super::*;
-            use crate::$p::math::{Point, Real};
-            use crate::$p::shape::{TopologyError, TriMesh, TriMeshFlags};
+            use crate::$p::math::{Isometry, Point, Real, Vector};
+            use crate::$p::query::{self, PointQuery, Ray, RayCast};
+            use crate::$p::shape::{Ball, TopologyError, TriMesh, TriMeshFlags};
 
             fn pts(m: &RawMesh) -> Vec<Point<Real>> {
                 m.v.iter().map(|c| Point::from_slice(&c[..])).collect()
@@ -221,8 +222,154 @@ macro_rules! dim_impl {
                 }
                 out.join(" ; ")
             }
+
+            // ---------------------------------------------------------- real queries on the final mesh of a history
+            fn centroids(m: &TriMesh) -> Vec<Vec<f64>> {
+                let vs = m.vertices();
+                m.indices().iter().filter_map(|t| {
+                    if t.iter().any(|&k| k as usize >= vs.len()) { return None; }
+                    Some((0..$d).map(|k| (vs[t[0] as usize][k] + vs[t[1] as usize][k] + vs[t[2] as usize][k]) / 3.0).collect())
+                }).collect()
+            }
+            fn pt(c: &[f64]) -> Point<Real> { Point::from_slice(&c[..$d]) }
+            fn vc(c: &[f64]) -> Vector<Real> { Vector::from_column_slice(&c[..$d]) }
+            fn guard<F: FnOnce() -> String>(tag: String, f: F) -> Result<String, String> {
+                catch_unwind(AssertUnwindSafe(f)).map_err(|e| format!("panic {} {}", tag, pmsg(e)))
+            }
+            /// the final buffers: `Q d F flags V nv coords I ni idx`
+            fn header(mesh: &TriMesh) -> String {
+                let mut s = format!("Q {} F {} V {}", $d, mesh.flags().bits(), mesh.vertices().len());
+                for p in mesh.vertices() { s.push(' '); s.push_str(&ffs(p.coords.iter())); }
+                s.push_str(&format!(" I {}", mesh.indices().len()));
+                for t in mesh.indices() { s.push_str(&format!(" {} {} {}", t[0], t[1], t[2])); }
+                s
+            }
+            /// the queries; `Err` = `panic <tag> <msg>` of the first query that panicked
+            fn queries(mesh: &TriMesh, targets: &[Vec<f64>]) -> Result<String, String> {
+                let d: usize = $d;
+                let vs = mesh.vertices();
+                                // box of the vertices used by the triangles and first used vertex: only used to place the queries (the oracle
+                // recomputes them from the printed buffers)
+                let (mut lo, mut hi, mut w) = (vec![0.0f64; d], vec![0.0f64; d], vec![0.0f64; d]);
+                let mut first = true;
+                for t in mesh.indices() { for &k in t.iter() {
+                    let p = &vs[k as usize];
+                    for a in 0..d {
+                        if first { lo[a] = p[a]; hi[a] = p[a]; w[a] = p[a]; } else { lo[a] = lo[a].min(p[a]); hi[a] = hi[a].max(p[a]); }
+                    }
+                    first = false;
+                } }
+                let mut s = header(mesh);
+                let dirs: Vec<Vec<f64>> = [[0.0, 0.0, 1.0], [0.0, 1.0, 0.0], [1.0, 0.0, 0.0], [0.5, 1.0, 0.25], [-0.75, 0.25, 1.0], [0.25, -0.5, -1.0]]
+                    .iter().map(|u| u[..d].to_vec()).filter(|u| u.iter().any(|x| *x != 0.0)).collect();
+                let centre: Vec<f64> = (0..d).map(|a| 0.5 * (lo[a] + hi[a])).collect();
+                // ---- rays: (origin, dir, max_toi, solid)
+                let mut rays: Vec<(Vec<f64>, Vec<f64>, f64, bool)> = vec![];
+                for (j, c) in targets.iter().take(16).enumerate() {
+                    let u = &dirs[j % dirs.len()];
+                    let sc = [1.0, 2.0, 0.5][j % 3];
+                    rays.push(((0..d).map(|a| c[a] + 3.0 * u[a]).collect(), u.iter().map(|x| 0.0 - x * sc).collect(), 1000.0, j % 2 == 0));
+                    if j < 8 { rays.push(((0..d).map(|a| c[a] - 3.0 * u[a]).collect(), u.iter().map(|x| x * sc).collect(), 1000.0, j % 2 == 1)); }
+                }
+                rays.push(((0..d).map(|a| lo[a] - 1.0).collect(), (0..d).map(|a| hi[a] - lo[a] + 2.0).collect(), 1000.0, true));
+                rays.push((centre.clone(), (0..d).map(|a| if a == 0 { 1.0 } else { 0.0 }).collect(), 0.5, false));
+                rays.push(((0..d).map(|a| hi[a] + 5.0).collect(), vec![1.0; d], 1000.0, true));
+                for (j, (o, u, mx, solid)) in rays.iter().enumerate() {
+                    let ray = Ray::new(pt(o), vc(u));
+                    let r1 = guard(format!("ray{}", j), || match mesh.cast_local_ray(&ray, *mx, *solid) { None => "-".into(), Some(t) => ff(t) })?;
+                    let r2 = guard(format!("rayn{}", j), || match mesh.cast_local_ray_and_get_normal(&ray, *mx, *solid) {
+                        None => "- -".into(), Some(h) => format!("{} {}", ff(h.time_of_impact), ffs(h.normal.iter())) })?;
+                    s.push_str(&format!(" r {} {} {} {} {} {}", hxs(o.iter()), hxs(u.iter()), hx(*mx), b(*solid), r1, r2));
+                }
+                // ---- point projections (solid = false)
+                let mut qpts: Vec<Vec<f64>> = vec![(0..d).map(|a| hi[a] + 10.0).collect(),
+                                                  (0..d).map(|a| centre[a] + 0.1 * (a as f64 + 1.0)).collect(), w.clone()];
+                for c in targets.iter().take(8) { qpts.push(c.clone()); }
+                for (j, p) in qpts.iter().enumerate() {
+                    let r = guard(format!("proj{}", j), || { let pr = mesh.project_local_point(&pt(p), false);
+                        format!("{} {}", ffs(pr.point.coords.iter()), b(pr.is_inside)) })?;
+                    s.push_str(&format!(" p {} {}", hxs(p.iter()), r));
+                }
+                // ---- a small ball at a few positions
+                let (rad, pred) = (0.25f64, 0.5f64);
+                let ball = Ball::new(rad);
+                let mut cs: Vec<Vec<f64>> = vec![(0..d).map(|a| hi[a] + 10.0).collect(), (0..d).map(|a| w[a] + if a == 0 { 0.25 } else { 0.0 }).collect()];
+                for (j, c) in targets.iter().take(6).enumerate() {
+                    let u = &dirs[j % dirs.len()];
+                    let off = [0.0, 0.5, 0.3][j % 3];
+                    cs.push((0..d).map(|a| c[a] + off * u[a]).collect());
+                }
+                let id = Isometry::<Real>::identity();
+                for (j, c) in cs.iter().enumerate() {
+                    let pos: Isometry<Real> = crate::$p::na::Translation::from(vc(c)).into();
+                    let rd = guard(format!("ball{}.distance", j), || match query::distance(&id, mesh, &pos, &ball) { Ok(x) => ff(x), Err(_) => "u".into() })?;
+                    let ri = guard(format!("ball{}.intersection_test", j), || match query::intersection_test(&id, mesh, &pos, &ball) { Ok(x) => b(x).into(), Err(_) => "u".into() })?;
+                    let rc = guard(format!("ball{}.contact", j), || match query::contact(&id, mesh, &pos, &ball, pred) {
+                        Err(_) => "u".into(), Ok(None) => "-".into(),
+                        Ok(Some(k)) => format!("c {} {} {} {} {}", ff(k.dist), ffs(k.point1.coords.iter()), ffs(k.point2.coords.iter()),
+                                               ffs(k.normal1.iter()), ffs(k.normal2.iter())) })?;
+                    s.push_str(&format!(" b {} {} {} {} {} {}", hxs(c.iter()), hx(rad), hx(pred), rd, ri, rc));
+                }
+                Ok(s)
+            }
+
+            /// `histq3` / `histq2`: same arguments as `hist3` / `hist2`; replays the history (no state dump) and runs real
+            /// queries on the final mesh.  Output: `histpanic` | `empty` | `emptyfinal …` | `panic <query> <msg> <header>` | <header> <results>.
+            pub fn histq(a: &mut Args) -> String {
+                let m0 = read_mesh(a, $d);
+                let ops = read_ops(a, $d);
+                let mut mesh = match build(pts(&m0), m0.i.clone(), m0.f) {
+                    None => return "histpanic".into(),
+                    Some(Err(())) => return "empty".into(),
+                    Some(Ok(m)) => m,
+                };
+                // targets: centroids of the original mesh, of the mesh before the last operation, and of the final mesh
+                let orig = centroids(&mesh);
+                let mut prev = orig.clone();
+                for op in &ops {
+                    let before = centroids(&mesh);
+                    let r = match op {
+                        RawOp::Sf(f) => catch_unwind(AssertUnwindSafe(|| { let _ = mesh.set_flags(flags(*f)); })),
+                        RawOp::Rev => catch_unwind(AssertUnwindSafe(|| mesh.reverse())),
+                        RawOp::Tv(xs) => { let iso = ($iso)(&xs[..]); catch_unwind(AssertUnwindSafe(|| mesh.transform_vertices(&iso))) }
+                        RawOp::App(r) => match build(pts(r), r.i.clone(), r.f) {
+                            Some(Ok(rhs)) => catch_unwind(AssertUnwindSafe(|| mesh.append(&rhs))),
+                            _ => Ok(()),
+                        },
+                    };
+                    if r.is_err() { return "histpanic".into(); }
+                    prev = before;
+                }
+                let mut targets: Vec<Vec<f64>> = vec![];
+                for c in prev.iter().chain(centroids(&mesh).iter()).chain(orig.iter()) {
+                    if c.iter().all(|x| x.is_finite()) && !targets.contains(c) { targets.push(c.clone()); }
+                }
+                if mesh.indices().is_empty() {
+                    // a history may delete every triangle (`with_flags` itself refuses an empty index buffer): outside the
+                    // domain of the queries; what each of them does is recorded, not judged
+                    let o = vec![0.0f64; $d];
+                    let ray = Ray::new(pt(&o), vc(&vec![1.0f64; $d]));
+                    let ball = Ball::new(0.25);
+                    let id = Isometry::<Real>::identity();
+                    let st = |r: Result<String, String>| match r { Ok(s) => s, Err(e) => format!("panicked:{}", e.split_whitespace().last().unwrap_or("?")) };
+                    return format!("emptyfinal ray {} rayn {} proj {} distance {} intersection_test {} contact {}",
+                        st(guard("".into(), || match mesh.cast_local_ray(&ray, 10.0, true) { None => "none".into(), Some(_) => "some".into() })),
+                        st(guard("".into(), || match mesh.cast_local_ray_and_get_normal(&ray, 10.0, true) { None => "none".into(), Some(_) => "some".into() })),
+                        st(guard("".into(), || { let _ = mesh.project_local_point(&pt(&o), false); "ok".into() })),
+                        st(guard("".into(), || match query::distance(&id, &mesh, &id, &ball) { Ok(x) => ff(x), Err(_) => "u".into() })),
+                        st(guard("".into(), || match query::intersection_test(&id, &mesh, &id, &ball) { Ok(x) => b(x).into(), Err(_) => "u".into() })),
+                        st(guard("".into(), || match query::contact(&id, &mesh, &id, &ball, 0.5) { Ok(None) => "none".into(), Ok(Some(_)) => "some".into(), Err(_) => "u".into() })));
+                }
+                match queries(&mesh, &targets) { Ok(s) => s, Err(e) => format!("{} {}", e, header(&mesh)) }
+            }
         }
     };
+}
+
+fn pmsg(e: Box<dyn std::any::Any + Send>) -> String {
+    let msg = if let Some(s) = e.downcast_ref::<&str>() { s.to_string() }
+        else if let Some(s) = e.downcast_ref::<String>() { s.clone() } else { "?".into() };
+    msg.chars().map(|c| if c.is_whitespace() || c == '|' || c == ';' { '_' } else { c }).take(100).collect()
 }
 
 dim_impl!(h3, p3, 3, |m: &TriMesh| m.pseudo_normals().map(|pn| (
@@ -283,6 +430,8 @@ pub fn exec(func: &str, a: &mut Args) -> String {
     match func {
         "hist3" | "hist3w" => h3::hist(a),
         "hist2" | "hist2w" => h2::hist(a),
+        "histq3" => h3::histq(a),
+        "histq2" => h2::histq(a),
         "contains3" => contains3(a),
         "scaled3" => scaled3(a),
         _ => "nofn".into(),
@@ -460,18 +609,84 @@ fn gen_contains(r: &mut Rng) -> String {
     s
 }
 
+/// Two-step histories of the shape "build without a deleting flag, then `set_flags` with deleting flags": a clean base mesh
+/// into which degenerate (repeated index / coincident vertices), duplicate (same, rotated, flipped indices) and
+/// bad-topology (a directed edge used twice) triangles are inserted FIRST, LAST or in the middle of the index buffer.
+fn gen_delete_history(r: &mut Rng, d: usize, k: u64) -> (RawMesh, Vec<RawOp>) {
+    let mut m = match k % 5 {
+        0 => tetra(d, 0.0),
+        1 if d == 3 => cube(),
+        2 => { let z = |x: f64, y: f64, zz: f64| if d == 3 { vec![x, y, zz] } else { vec![x, y] };   // one triangle
+               RawMesh { v: vec![z(0.0, 0.0, 0.0), z(1.0, 0.0, 0.0), z(0.0, 1.0, 0.0)], i: vec![[0, 1, 2]], f: 0 } }
+        3 => { let mut a = tetra(d, 0.0); let b = tetra(d, 3.0); let base = a.v.len() as u32;
+               a.v.extend(b.v); a.i.extend(b.i.iter().map(|t| [t[0] + base, t[1] + base, t[2] + base])); a }
+        _ => { // random triangles over a small lattice, pairwise distinct corners
+            let nv = r.range(4, 7) as usize;
+            let v: Vec<Vec<f64>> = (0..nv).map(|_| (0..d).map(|_| coord(r, 1)).collect()).collect();
+            let ni = r.range(1, 6) as usize;
+            let i = (0..ni).map(|_| { let a = r.below(nv as u64) as u32; let b2 = (a + 1 + r.below(nv as u64 - 1) as u32) % nv as u32;
+                let mut c = r.below(nv as u64) as u32; while c == a || c == b2 { c = (c + 1) % nv as u32; } [a, b2, c] }).collect();
+            RawMesh { v, i, f: 0 } }
+    };
+    if r.below(3) == 0 { // generic (non-lattice) coordinates
+        let sc: Vec<f64> = (0..d).map(|_| r.uniform(0.3, 3.0)).collect();
+        let tr: Vec<f64> = (0..d).map(|_| r.uniform(-5.0, 5.0)).collect();
+        for p in m.v.iter_mut() { for a in 0..d { let x = p[a] * sc[a] + tr[a]; p[a] = if x == 0.0 { 0.0 } else { x }; } }
+    }
+    let nbad = 1 + r.below(3);
+    let place = (k / 5) % 4;    // 0 first, 1 last, 2 middle, 3 random
+    for j in 0..nbad {
+        let n = m.i.len();
+        let nv = m.v.len() as u64;
+        let t = m.i[r.below(n as u64) as usize];
+        let bad: [u32; 3] = match (k / 20 + j) % 8 {
+            0 => { let a = r.below(nv) as u32; let b2 = r.below(nv) as u32; [a, a, b2] }
+            1 => { let a = r.below(nv) as u32; let b2 = r.below(nv) as u32; *r.pick(&[[a, b2, a], [b2, a, a], [a, a, a]]) }
+            2 => t,
+            3 => [t[1], t[2], t[0]],
+            4 => [t[1], t[0], t[2]],
+            5 => { // same directed edge t0 -> t1, another apex
+                let mut x = r.below(nv) as u32; while x == t[0] || x == t[1] { x = (x + 1) % nv as u32; } [t[0], t[1], x] }
+            6 => { // degenerate by coordinates: a copy of a vertex
+                let c = m.v[t[0] as usize].clone(); m.v.push(c); [t[0], (m.v.len() - 1) as u32, t[1]] }
+            _ => [t[2], t[1], t[0]],
+        };
+        let pos = match place { 0 => 0, 1 => n, 2 => n / 2, _ => r.below(n as u64 + 1) as usize };
+        m.i.insert(pos, bad);
+    }
+    m.f = *r.pick(&[0, 0, 0, HET, CC, ORIENTED, HET | CC | ORIENTED, MERGE, FIX7 | MERGE]);
+    let del = *r.pick(&[DEL_DEGEN, DEL_DUP, DEL_BAD, DEL_DEGEN | DEL_DUP, DEL_DEGEN | DEL_BAD, DEL_DUP | DEL_BAD, DEL_DEGEN | DEL_DUP | DEL_BAD]);
+    let keep = match r.below(4) { 0 => m.f, 1 => m.f | MERGE, 2 => *r.pick(&[HET, CC, ORIENTED, HET | CC | ORIENTED]), _ => 0 };
+    let mut ops = vec![RawOp::Sf(del | keep)];
+    match r.below(8) { 0 => ops.push(RawOp::Rev), 1 => ops.push(RawOp::Sf(0)), 2 => ops.insert(0, RawOp::Rev), _ => {} }
+    (m, ops)
+}
+
 pub fn gen(r: &mut Rng, thorough: bool) -> Vec<(String, String)> {
     let mut out = vec![];
     let n3 = if thorough { 40000 } else { 5000 };
     let n2 = if thorough { 12000 } else { 1500 };
     let maxlen = if thorough { 8 } else { 5 };
+    // every history is emitted twice: `hist*` (states, modelled) and `histq*` (real queries on the final mesh, oracle only)
     for _ in 0..n3 {
         let m = gen_mesh(r, 3, false); let ops = gen_ops(r, 3, maxlen);
         out.push(("hist3".to_string(), show_case(&m, &ops)));
+        out.push(("histq3".to_string(), show_case(&m, &ops)));
     }
     for _ in 0..n2 {
         let m = gen_mesh(r, 2, false); let ops = gen_ops(r, 2, maxlen);
         out.push(("hist2".to_string(), show_case(&m, &ops)));
+        out.push(("histq2".to_string(), show_case(&m, &ops)));
+    }
+    for k in 0..(if thorough { 4000 } else { 640 }) {
+        let (m, ops) = gen_delete_history(r, 3, k);
+        out.push(("hist3".to_string(), show_case(&m, &ops)));
+        out.push(("histq3".to_string(), show_case(&m, &ops)));
+    }
+    for k in 0..(if thorough { 1600 } else { 320 }) {
+        let (m, ops) = gen_delete_history(r, 2, k);
+        out.push(("hist2".to_string(), show_case(&m, &ops)));
+        out.push(("histq2".to_string(), show_case(&m, &ops)));
     }
     for _ in 0..(if thorough { 6000 } else { 600 }) {
         out.push(("contains3".to_string(), gen_contains(r)));
